@@ -9,6 +9,11 @@ YET CONVERGED") around a drawn abstract document, parsed with the real
 ``Parser(...).parse_from_number/index(...).to_browser()`` and every dataset is
 compared with the ground truth of the document (oracle, by bounds look-up) and
 with the Coq model of the post-grammar pipeline (C10/Model.v, bit-exact).
+Text level (C10/Text.v): the text of every generated edition block must be the
+text the model printer prints for the document, and what the model parser
+extracts from it must be what the real pyparsing grammar extracted (observed
+in front of the transform layer); the same comparison runs on the result
+blocks of the shipped example listings whose layout the model parser knows.
 
 Apollo3: h5py writes files from drawn abstract trees following the layout
 documented in hdf5_reader.py; ``Reader(...).to_browser()``, ``Picker.pick_*``,
@@ -24,7 +29,8 @@ from vp import common
 from vp.common import cz, cn, cb, clist, copt, cstr
 
 IMPORTS = '''From Coq Require Import List ZArith String.
-From VV Require Import Lib.Base Lib.B64 C10.Model C10.Floats C10.Apollo C10.Check.
+From VV Require Import Lib.Base Lib.B64 C11.Pystr C10.Model C10.Floats C10.Apollo C10.Check.
+From VV Require Import C10.Text C10.TextCheck.
 Import ListNotations.
 Local Open Scope string_scope.
 '''
@@ -245,6 +251,7 @@ def expected_zone(zone):
         tset, nt = [], 1
     val = np.full((ne, nt), np.nan)
     err = np.full((ne, nt), np.nan)
+    leth = np.full((ne, nt), np.nan)
     ival = np.full((nt,), np.nan)
     ierr = np.full((nt,), np.nan)
     for stp in zone['steps']:
@@ -256,10 +263,11 @@ def expected_zone(zone):
             assert eset[i + 1] == hi
             val[i, jtime] = float(row[2])
             err[i, jtime] = np.float64(float(row[3])) * np.float64(float(row[2])) * 0.01
+            leth[i, jtime] = float(row[4])
         if stp['integ'] is not None:
             ival[jtime] = float(stp['integ'][0])
             ierr[jtime] = np.float64(float(stp['integ'][1])) * np.float64(float(stp['integ'][0])) * 0.01
-    return {'ebins': eset, 'tbins': tset, 'val': val, 'err': err, 'ival': ival, 'ierr': ierr}
+    return {'ebins': eset, 'tbins': tset, 'val': val, 'err': err, 'leth': leth, 'ival': ival, 'ierr': ierr}
 
 
 def same(a, b):
@@ -310,6 +318,14 @@ def t4_oracle(ctx, edi, browser, case, requested):
             if not same(dset.error, exp['err']):
                 fail(f'error of response {resp["name"]} zone {zone["vol"]} is not value * sigma% * 0.01',
                      't4-error')
+            lset = res.get('score/lethargy')
+            if lset is None or not same(lset.value, exp['leth']):
+                fail(f'score/lethargy of response {resp["name"]} zone {zone["vol"]} is not the printed value '
+                     'of the group/time step its bins designate', 't4-lethargy')
+            dis = res.get('discarded_batches')
+            if dis is None or not same(dis.value, [edi['disc']]):
+                fail(f'discarded batches of response {resp["name"]} zone {zone["vol"]} differ from the '
+                     'printed number', 't4-batches')
             if not same(dset.bins['e'], exp['ebins']):
                 fail(f'energy bins {dset.bins["e"].tolist()} are not the printed bounds in increasing order',
                      't4-ebins')
@@ -393,12 +409,314 @@ def zone_case(zone, res):
                                               integ)
 
 
-def run_t4(ctx, nlist):
+# --------------------------------------------------------------------------
+# Tripoli-4, text level: the block of an edition (what the scanner hands to the
+# grammar), the document it was printed from, and what the REAL pyparsing
+# grammar extracted from it, observed before the transform layer (recorders put
+# in front of the parse actions of the grammar elements; they return None, the
+# tokens go on unchanged).  Compared inside Coq with the model printer and the
+# model parser of C10/Text.v (check_gen / check_ship in C10/TextCheck.v).
+
+NUMCH = set('0123456789+-.eE')
+TAPPED = ('response', 'scoreblock', 'genericscoreblock', 'keffblock')
+
+
+def is_num(tok):
+    return tok != '' and set(tok) <= NUMCH and any(c.isdigit() for c in tok)
+
+
+def plain(obj):
+    '''ParseResults -> python lists / dicts, leaves unchanged'''
+    if hasattr(obj, 'as_dict') and hasattr(obj, 'as_list'):
+        names = list(obj.keys())
+        if names:
+            return {k: plain(obj[k]) for k in names}
+        return [plain(x) for x in obj]
+    if isinstance(obj, (list, tuple)):
+        return [plain(x) for x in obj]
+    return obj
+
+
+def install_tap():
+    '''recorders on the grammar elements; None when the grammar is organised otherwise'''
+    from valjean.eponine.tripoli4 import grammar
+    tap = getattr(grammar, '_verif_tap', None)
+    if tap is not None:
+        return tap
+    elts = {name: getattr(grammar, name, None) for name in TAPPED}
+    if any(el is None or not isinstance(getattr(el, 'parseAction', None), list) for el in elts.values()):
+        return None
+    tap = {'rec': {}}
+
+    def recorder(tag):
+        def rec(_text, loc, toks):
+            tap['rec'][(loc, tag)] = plain(toks[0])
+        return rec
+    for name, el in elts.items():
+        el.parseAction.insert(0, recorder(name))
+    grammar._verif_tap = tap
+    return tap
+
+
+class NumTab:
+    '''numeral tokens of a text with the bits of their float()'''
+    def __init__(self, text):
+        self.toks, self.index, self.bybits = [], {}, {}
+        for tok in text.split():
+            self.add(tok)
+
+    def add(self, tok):
+        if tok in self.index or not is_num(tok):
+            return
+        try:
+            bits = fbits(float(tok))
+        except ValueError:
+            return
+        self.index[tok] = len(self.toks)
+        self.bybits.setdefault(bits, len(self.toks))
+        self.toks.append((tok, bits))
+
+    def of_value(self, val):
+        '''index of a token whose float() is this number (len = none)'''
+        try:
+            if isinstance(val, (str, bytes, list, dict)) or val is None:
+                raise TypeError
+            return self.bybits.get(fbits(float(val)), len(self.toks))
+        except (TypeError, ValueError):
+            return len(self.toks)
+
+    def coq(self):
+        return clist(['(%s, %s)' % (cbstr(t), cz(b)) for t, b in self.toks])
+
+
+def cbstr(text):
+    data = text.encode('utf-8')
+    if all(c >= 32 or c == 9 for c in data) and all(c < 127 for c in data):
+        return '"' + text.replace('"', '""') + '"%bs'
+    return '(bsn [' + '; '.join(str(c) for c in data) + ']%N)'
+
+
+def coq_lines(block):
+    '''the lines of a block as a table of distinct lines and identifiers'''
+    lines = block.split('\n')
+    if lines and lines[-1] == '':
+        lines.pop()
+    uniq, ids = {}, []
+    for line in lines:
+        ids.append(uniq.setdefault(line, len(uniq)))
+    return (clist([cbstr(u) for u in uniq]), clist([str(i) for i in ids]), lines)
+
+
+def r_m(k):
+    return 'Rm %d' % k
+
+
+def real_integ(integ, tab):
+    if integ is None:
+        return [r_m(40)]
+    if not isinstance(integ, dict):
+        return [r_m(99)]
+    out = [r_m(41), 'Rn %d' % tab.of_value(integ.get('discarded_batches'))]
+    if 'not_converged' in integ:
+        return out + [r_m(42)]
+    return out + [r_m(43)] + ['Rn %d' % tab.of_value(integ.get(k)) for k in ('used_batches', 'score', 'sigma')]
+
+
+def real_zone(rec, tab):
+    '''atoms of a raw score block (spectrum layouts)'''
+    out = [r_m(10), 'Rw %s' % cbstr(str(rec.get('scoring_mode'))),
+           'Rn %d' % (tab.of_value(rec.get('scoring_zone_id')) if rec.get('scoring_zone_type') == 'Volume'
+                      else len(tab.toks))]
+    groups = rec.get('spectrum_res') or []
+    top = rec.get('integrated_res')
+    for k, grp in enumerate(groups):
+        out.append(r_m(20))
+        if not isinstance(grp, dict) or set(grp) - {'time_step', 'discarded_batches', 'spectrum_vals',
+                                                     'integrated_res'}:
+            out.append(r_m(99))
+            continue
+        if 'time_step' in grp:
+            out += [r_m(21)] + ['Rn %d' % tab.of_value(x) for x in grp['time_step']]
+        else:
+            out.append(r_m(22))
+        out.append('Rn %d' % tab.of_value(grp.get('discarded_batches')))
+        for row in grp.get('spectrum_vals', []):
+            out += [r_m(30)] + ['Rn %d' % tab.of_value(x) for x in row]
+        integ = grp.get('integrated_res')
+        if integ is None and k == len(groups) - 1:
+            integ = top
+        out += real_integ(integ, tab) + [r_m(23)]
+    out.append(r_m(11))
+    return out
+
+
+def real_generic(rec, tab):
+    if 'not_converged' in rec:
+        return [r_m(51)]
+    return [r_m(50)] + ['Rn %d' % tab.of_value(rec.get(k)) for k in ('used_batches', 'score', 'sigma')]
+
+
+def real_keff(rec, tab):
+    out = [r_m(60), 'Rn %d' % tab.of_value(rec.get('used_batches'))]
+    ests = rec.get('res_per_estimator')
+    corr = rec.get('correlation_mat')
+    full = rec.get('full_comb_estimation')
+    if not isinstance(ests, list) or [e[0] for e in ests] != ['KSTEP', 'KCOLL', 'KTRACK'] \
+            or not isinstance(corr, list) or not isinstance(full, list) \
+            or [tuple(c[0]) for c in corr] != [('KSTEP', 'KCOLL'), ('KSTEP', 'KTRACK'), ('KCOLL', 'KTRACK')]:
+        return out + [r_m(99)]
+    for est in ests:
+        out += ['Rn %d' % tab.of_value(x) for x in est[1:]]
+    for cor in corr:
+        out += ['Rn %d' % tab.of_value(x) for x in cor[1:]]
+    return out + ['Rn %d' % tab.of_value(x) for x in full]
+
+
+def real_block(records, pres, tab):
+    '''atoms of a whole edition: responses in the order of the text'''
+    out = [r_m(80), 'Rn %d' % tab.of_value(pres.get('batch_data', {}).get('edition_batch_number'))]
+    locs = sorted(records)
+    resp_locs = [loc for loc, tag in locs if tag == 'response']
+    for i, rloc in enumerate(resp_locs):
+        end = resp_locs[i + 1] if i + 1 < len(resp_locs) else float('inf')
+        rec = records[(rloc, 'response')]
+        out += [r_m(70), 'Rw %s' % cbstr(str(rec.get('response_function')))]
+        for key, mark in (('response_name', 71), ('score_name', 72), ('energy_split_name', 73)):
+            if key in rec:
+                out += [r_m(mark), 'Rw %s' % cbstr(str(rec[key]))]
+        for loc, tag in locs:
+            if rloc <= loc < end and tag != 'response':
+                sub = records[(loc, tag)]
+                out += {'scoreblock': real_zone, 'genericscoreblock': real_generic,
+                        'keffblock': real_keff}[tag](sub, tab)
+        out.append(r_m(79))
+    times = pres.get('batch_data', {})
+    return out + ['Rn %d' % tab.of_value(times.get('simulation_time')), r_m(89)]
+
+
+def coq_doc(edi, tab):
+    '''Coq literal of the document of an edition (numerals by index in the table)'''
+    def num(val):
+        tok = val if isinstance(val, str) else '%d' % val
+        tab.add(tok)
+        return '(n %d)' % tab.index.get(tok, len(tab.toks))
+
+    def words(text):
+        return clist(['lit_b %s' % cbstr(w) for w in text.split()])
+
+    def integ(stp):
+        res = 'None' if stp['integ'] is None else \
+            '(Some (%s, %s, %s))' % (num(edi['used']), num(stp['integ'][0]), num(stp['integ'][1]))
+        return '(Some (mk_dinteg %s %s))' % (num(edi['disc']), res)
+    resps = []
+    for resp in edi['responses']:
+        zones = []
+        for zone in resp['zones']:
+            steps = []
+            for k, stp in enumerate(zone['steps']):
+                tim = '(Some (%s, %s, %s))' % (num(k), num(stp['tmin']), num(stp['tmax'])) \
+                    if zone['with_time'] else 'None'
+                rows = clist(['mk_drow ' + ' '.join(num(x) for x in row) for row in stp['rows']])
+                steps.append('mk_dstep %s %s %s %s' % (tim, num(edi['disc']), rows, integ(stp)))
+            zones.append('mk_dzone (lit_b %s) %s %s' % (cbstr(zone['mode']), num(zone['vol']), clist(steps)))
+        attrs = []
+        if resp.get('name') is not None:
+            attrs.append('ARespName %s' % words(resp['name']))
+        if resp.get('score_name'):
+            attrs.append('AScoreName %s' % words(resp['score_name']))
+        attrs.append('ADecoupage %s' % words(resp['decoupage']))
+        resps.append('mk_dresp %s %s (BZones %s)' % (words(resp['function']), clist(attrs), clist(zones)))
+    for gen in edi['generic']:
+        resps.append('mk_dresp %s [] (BGeneric %s %s %s)' % (words(gen['function']), num(edi['used']),
+                                                           num(gen['score']), num(gen['sigma'])))
+    if edi.get('keff'):
+        kef = edi['keff']
+
+        def tup(vals):
+            return '(' + ', '.join(num(v) for v in vals) + ')'
+        resps.append('mk_dresp [lit_b "KEFFS"%%bs] [] (BKeff (mk_dkeff %s (%s, %s, %s) (%s, %s, %s) %s))'
+                     % (num(kef['used']), tup(kef['KSTEP']), tup(kef['KCOLL']), tup(kef['KTRACK']),
+                        tup(kef['c01']), tup(kef['c02']), tup(kef['c12']), tup(kef['full'])))
+    return '(fun n : N -> str => mk_doc %s %s %s)' % (num(edi['batch']), clist(resps), num(edi['time']))
+
+
+def gen_text_case(edi, block, records, pres):
+    '''Coq literal of a check_gen case'''
+    tab = NumTab(block)
+    real = clist(real_block(records, pres, tab))
+    doc = coq_doc(edi, tab)            # may append numerals that are not in the text
+    uniq, ids, _ = coq_lines(block)
+    return '(%s, %s, %s, %s, %s)' % (tab.coq(), uniq, ids, doc, real)
+
+
+def ship_text_case(block, records):
+    '''Coq literal of a check_ship case and the description of its result blocks'''
+    tab = NumTab(block)
+    uniq, ids, _ = coq_lines(block)
+    blocks, descr = [], []
+    expanded = block.expandtabs()      # pyparsing locates tokens in the text with tabs expanded
+    for (loc, tag) in sorted(records):
+        if tag == 'response':
+            continue
+        kind = {'scoreblock': 0, 'genericscoreblock': 1, 'keffblock': 2}[tag]
+        atoms = {0: real_zone, 1: real_generic, 2: real_keff}[kind](records[(loc, tag)], tab)
+        off = expanded.count('\n', 0, loc)
+        blocks.append('(%d, %d, %s)' % (off, kind, clist(atoms)))
+        descr.append({'line': off, 'element': tag})
+    return '(%s, %s, %s, %s)' % (tab.coq(), uniq, ids, clist(blocks)), descr
+
+
+def shipped_listings(repo):
+    '''the example listings the tests of valjean read'''
+    folder = os.path.join(repo, DATA)
+    return sorted(f for f in os.listdir(folder) if '.res' in f and not f.startswith('failure'))
+
+
+def run_shipped(ctx, tap):
+    '''result blocks of the shipped listings as the real grammar sees them'''
+    from valjean.eponine.tripoli4.parse import Parser
+    cases, index = [], []
+    quick = ctx.tier == 'quick'
+    for name in shipped_listings(common.REPO):
+        path = os.path.join(common.REPO, DATA, name)
+        if quick and os.path.getsize(path) > 400000:
+            ctx.count('t4_shipped_skipped_quick')
+            continue
+        try:
+            par = Parser(path)
+            numbers = par.batch_numbers()
+        except Exception:  # noqa
+            ctx.count('t4_shipped_unreadable')
+            continue
+        for number in (numbers[-1:] if quick else numbers[-2:]):
+            block = par.scan_res[number]
+            if quick and len(block) > 20000:
+                ctx.count('t4_shipped_skipped_quick')
+                continue
+            tap['rec'] = {}
+            try:
+                par.parse_from_number(number)
+            except Exception:  # noqa
+                ctx.count('t4_shipped_unreadable')
+                continue
+            records = tap['rec']
+            if not any(tag != 'response' for _, tag in records):
+                continue
+            lit, descr = ship_text_case(block, records)
+            cases.append(lit)
+            index.append({'kind': 't4ship', 'listing': name, 'edition': number, 'blocks': descr})
+            ctx.count('t4_shipped_editions')
+    return cases, index
+
+
+def run_t4(ctx, nlist, tap=None):
     from valjean.eponine.tripoli4.parse import Parser
     rng = ctx.rng
     head = header(common.REPO)
     wdir = ctx.wd()
     cases, index = [], []
+    textcases, textindex = [], []
+    ntext = nlist if ctx.tier != 'quick' else max(1, nlist // 3)
     for num in range(nlist):
         doc = draw_doc(rng)
         text = listing_text(doc, head)
@@ -423,6 +741,8 @@ def run_t4(ctx, nlist):
         rng.shuffle(order)
         for idx in order:
             edi = doc['editions'][idx]
+            if tap is not None:
+                tap['rec'] = {}
             try:
                 if rng.random() < 0.5:
                     pres = par.parse_from_number(edi['batch'])
@@ -436,6 +756,11 @@ def run_t4(ctx, nlist):
                                    f'{edi["batch"]} of {num}', case, key='t4-parser-raises')
                 continue
             t4_oracle(ctx, edi, browser, case, edi['batch'])
+            if tap is not None and num < ntext:
+                textcases.append(gen_text_case(edi, par.scan_res[edi['batch']], tap['rec'], pres.pres))
+                textindex.append({'kind': 't4', 'listing': num, 'edition': edi['batch'], 'doc': doc,
+                                  'level': 'text'})
+                ctx.count('t4_text_editions')
             for resp in edi['responses']:
                 for zone in resp['zones']:
                     sel = find_items(browser, response_function=resp['function'], response_name=resp['name'],
@@ -449,7 +774,7 @@ def run_t4(ctx, nlist):
                         ctx.count('t4_zone_time' if zone['with_time'] else 't4_zone_notime')
             ctx.case_seen({'kind': 't4', 'listing': num, 'edition': edi['batch']}, True, sample_every=97)
         os.unlink(path)
-    return cases, index
+    return cases, index, textcases, textindex
 
 
 # --------------------------------------------------------------------------
@@ -733,6 +1058,32 @@ def run_ap3(ctx, nfiles):
 
 # --------------------------------------------------------------------------
 
+TEXT_CODES = {1: 'the model printer (C10/Text.v print_block) and the generator print different texts',
+              2: 'the generated document is not well-formed (wf_doc): the round-trip theorem does not apply',
+              3: 'the model parser rejects the text of the block',
+              4: 'the model parser and the real pyparsing grammar extract different rows from the text'}
+
+
+def parse_codes(out):
+    import re
+    mat = re.search(r'=\s*(\[[^\]]*\]|nil)\s*(%N)?\s*:\s*list N', out, re.S)
+    if not mat:
+        raise common.CoqError('cannot parse Eval output: ' + out[:500])
+    return [int(x) for x in re.findall(r'\d+', mat.group(1))]
+
+
+def parse_code_lists(out):
+    import re
+    mat = re.search(r'=\s*(.*?)\s*:\s*list \(list N\)', out, re.S)
+    if not mat:
+        raise common.CoqError('cannot parse Eval output: ' + out[:500])
+    body = mat.group(1).replace('%N', '').strip()
+    if body == 'nil':
+        return []
+    inner = body.strip()[1:-1]
+    return [[int(x) for x in re.findall(r'\d+', part)] for part in re.findall(r'\[[^\[\]]*\]|nil', inner)]
+
+
 def run(ctx):
     common.import_repo()
     import logging
@@ -741,12 +1092,27 @@ def run(ctx):
     ctx.rule = ('Tripoli-4: listings generated from drawn documents (1-3 editions, 1-4 spectrum responses x '
                 '1-3 zones, 1-6 groups upwards/downwards, 1-3 time steps upwards/downwards, generic '
                 'integrated responses, keff block, zeros, signs, NOT YET CONVERGED), every edition parsed by '
-                'number or index; Apollo3: files written from drawn standard-layout trees (1-2 outputs, '
+                'number or index; text of a third (quick) / all of the generated editions and of the last '
+                'edition(s) of the shipped example listings against the model printer/parser; Apollo3: files written from drawn standard-layout trees (1-2 outputs, '
                 '1-3 zones, 0-3 isotopes, macro group, anisotropy given globally or per result, multigroup '
                 'spectrum); non-trivial = an edition / a file with at least one result; distinct by content')
-    t4cases, t4index = run_t4(ctx, 60 if quick else 1500)
+    tap = install_tap()
+    if tap is None:
+        ctx.count('t4_grammar_elements_not_found')
+    t4cases, t4index, txcases, txindex = run_t4(ctx, 60 if quick else 1500, tap)
+    shcases, shindex = run_shipped(ctx, tap) if tap is not None else ([], [])
     apcases, apindex = run_ap3(ctx, 40 if quick else 500)
     shards, indexes = [], []
+    per = 8
+    for k in range(0, len(txcases), per):
+        shards.append('Local Open Scope N_scope.\nDefinition cases : list gen_case := [\n '
+                      + ';\n '.join(txcases[k:k + per]) + '].\nEval vm_compute in (map check_gen cases).')
+        indexes.append(('gen', txindex[k:k + per]))
+    for k in range(0, len(shcases), 4):
+        shards.append('Local Open Scope N_scope.\nDefinition cases : list ship_case := [\n '
+                      + ';\n '.join(shcases[k:k + 4]) + '].\nEval vm_compute in (map check_ship cases).')
+        indexes.append(('ship', shindex[k:k + 4]))
+    ntext_shards = len(shards)
     for k in range(0, len(t4cases), 150):
         shards.append('Definition cases : list t4case := [\n ' + ';\n '.join(t4cases[k:k + 150]) + '].\n'
                       'Eval vm_compute in bad_indices (map check_t4 cases).')
@@ -756,6 +1122,35 @@ def run(ctx):
                       'Eval vm_compute in bad_indices (map check_ap3_wf cases).')
         indexes.append(apindex[k:k + 40])
     outs = common.coq_eval(ctx.pid, IMPORTS, shards)
+    supported = 0
+    for k, out in enumerate(outs[:ntext_shards]):
+        kind, idx = indexes[k]
+        if kind == 'gen':
+            codes = parse_codes(out)
+            if len(codes) != len(idx):
+                raise common.CoqError('text shard: %d answers for %d cases' % (len(codes), len(idx)))
+            for code, case in zip(codes, idx):
+                if code:
+                    ctx.mismatch('%s :: listing %s edition %s'
+                                 % (TEXT_CODES.get(code, 'text level'), case['listing'], case['edition']), case)
+        else:
+            answers = parse_code_lists(out)
+            if len(answers) != len(idx):
+                raise common.CoqError('shipped shard: %d answers for %d cases' % (len(answers), len(idx)))
+            for codes, case in zip(answers, idx):
+                for code, blk in zip(codes, case['blocks']):
+                    ctx.count('t4_shipped_blocks_%s' % ('compared', 'layout_outside_model', 'differ')[code])
+                    supported += code == 0
+                    if code == 2:
+                        ctx.mismatch('model parser and real grammar extract different rows from the %s at '
+                                     'line %d of the last block of %s' % (blk['element'], blk['line'],
+                                                                          case['listing']),
+                                     {'kind': 't4ship', 'listing': case['listing'], 'edition': case['edition'],
+                                      'line': blk['line'], 'element': blk['element']})
+    if shcases and not supported:
+        ctx.mismatch('no result block of the shipped listings is read by the model parser', {'kind': 't4ship'})
+    outs = outs[ntext_shards:]
+    indexes = indexes[ntext_shards:]
     for k, out in enumerate(outs):
         for i in common.parse_nat_list(out):
             case = indexes[k][i]
@@ -766,12 +1161,20 @@ def run(ctx):
                 ctx.mismatch(f'reader/picker model and implementation disagree on file {case["file"]}', case)
     ctx.extra['t4_model_cases'] = len(t4cases)
     ctx.extra['ap3_model_cases'] = len(apcases)
-    ctx.extra['theorem_part'] = ('post-grammar pipeline (bins, flips, attachment of rows, error expression) '
-                                 'and reader/picker agreement on abstract trees')
-    ctx.extra['correspondence_only'] = ('pyparsing grammar and transform layer (printed rows -> builder input), '
-                                        'float() of decimal numerals, h5py/HDF5, response layouts outside '
-                                        'the generator (meshes, Green bands, kij, angular zones, ...)')
-    ctx.assumptions = ['the generator is the authority on what is written in a listing / file',
+    ctx.extra['t4_text_cases'] = len(txcases)
+    ctx.extra['t4_shipped_cases'] = len(shcases)
+    ctx.extra['theorem_part'] = ('text level for the layouts of the generator: the model parser reads back what the '
+                                 'model printer prints (parse_print) and the printed text goes to the datasets '
+                                 'with every printed group in the cell its printed bounds delimit '
+                                 '(text_to_dataset, float() as a parameter); post-grammar pipeline (bins, flips, '
+                                 'attachment of rows, error expression); reader/picker agreement on abstract trees')
+    ctx.extra['correspondence_only'] = ('pyparsing itself (the real grammar is compared with the model parser on '
+                                        'every generated block and on the result blocks of the shipped listings '
+                                        'whose layout the model parser knows), the transform layer, float() of '
+                                        'decimal numerals, h5py/HDF5, response layouts outside the generator '
+                                        '(meshes, Green bands, kij, angular zones, ...)')
+    ctx.assumptions = ['the generator is the authority on what is written in a listing / file (its text is '
+                       'compared with the model printer\'s on every run)',
                        'float() of a printed numeral is the printed value',
                        'numpy float64 multiplication is IEEE binary64 multiplication']
 
@@ -791,8 +1194,17 @@ def replay(ctx, path):
             fil.write(text)
         print('listing written to', fpath, '(kept until the end of the replay)')
         par = Parser(fpath)
+        tap = install_tap() if case.get('level') == 'text' else None
         for edi in case['doc']['editions']:
+            if tap is not None:
+                tap['rec'] = {}
             browser = par.parse_from_number(edi['batch']).to_browser()
+            if tap is not None and edi['batch'] == case.get('edition'):
+                print('text level, edition %s: tokens of the real grammar in front of the transform layer'
+                      % edi['batch'])
+                for (loc, tag), rec in sorted(tap['rec'].items()):
+                    if tag != 'response':
+                        print(' ', loc, tag, rec)
             t4_oracle(ctx, edi, browser, {'listing': case['listing']}, edi['batch'])
             for res in browser.content:
                 if 'score' in res['results']:
@@ -801,6 +1213,22 @@ def replay(ctx, path):
                           'bins', {k: v.tolist() for k, v in dset.bins.items() if len(v)},
                           'value', np.asarray(dset.value).squeeze().tolist(),
                           'error', np.asarray(dset.error).squeeze().tolist())
+    elif case.get('kind') == 't4ship':
+        from valjean.eponine.tripoli4.parse import Parser
+        tap = install_tap()
+        if tap is None or 'listing' not in case:
+            print('nothing to replay:', case)
+            return 0
+        par = Parser(os.path.join(common.REPO, DATA, case['listing']))
+        tap['rec'] = {}
+        par.parse_from_number(case['edition'])
+        block = par.scan_res[case['edition']]
+        expanded = block.expandtabs()
+        for (loc, tag), rec in sorted(tap['rec'].items()):
+            if tag == case.get('element') and expanded.count('\n', 0, loc) == case.get('line'):
+                print('the real grammar extracted:', rec)
+                print('from the text starting at line %d of the block:' % case['line'])
+                print('\n'.join(block.split('\n')[case['line']:case['line'] + 40]))
     else:
         from valjean.eponine.apollo3.hdf5_reader import Reader
         fpath = os.path.join(wdir, 'replay.hdf')
